@@ -89,10 +89,31 @@ def split_epoch_body(loop: ast.For):
     return body, []
 
 
+def rule_scripted_runs(prog, rep, R="C15.evaluated"):
+    """fit_to_data evaluated (the checker's evaluator on scripted stand-ins, fitgrid) for 1..3 epochs with and without
+    a condition: the split is made once from (x, condition) in this order, every training step gets the training
+    batch (x part first, then its condition part), every validation loss the validation batch, the arrays of one epoch
+    are shuffled with one key, and no two uses of randomness receive the same key."""
+    from . import fitgrid
+    rep.rule(R, "fit_to_data on scripted runs: train batches only into step and validation batches only into the loss, x "
+                "paired with its condition, one shuffle key per epoch list, pairwise distinct keys", minimum=1)
+    m, fn = prog.func("flowjax.train.data_fit.fit_to_data")
+    site = f"{m.relpath}:{fn.lineno}"
+    res = fitgrid.decide_data_handling(prog)
+    if res is None:
+        rep.holds(R, site, "fit_to_data:scripted-runs", "outside the evaluated subset: decided by the dataflow rules alone",
+                  nontrivial=False)
+    elif res[0] == "holds":
+        rep.holds(R, site, "fit_to_data:scripted-runs", f"{res[1]} scripted runs")
+    else:
+        rep.violated(R, site, "fit_to_data:scripted-runs", res[1])
+
+
 def run(prog: Program, rep: Report, tier: str):
     rule_helpers(prog, rep)
     rule_fit(prog, rep)
     rule_order(prog, rep)
+    rule_scripted_runs(prog, rep)
     # "every batch gets a fresh key" holds for the COMPILED loss too: a jitted closure must not read the per-batch key
     # from the enclosing scope (it would keep the key of its first trace)
     from .lints import rule_jit_captures
